@@ -11,18 +11,47 @@ T: random histories on long sequences / many objects run concurrently on the sha
 """
 import json
 import os
-import shutil
+import re
 import vlib
 
 
-def scan(path):
+def scan(paths):
     """Cases exported by TLC, one at a time (each line: a JSON string holding a JSON object)."""
+    for path in paths.split(","):
+        with open(path) as f:
+            for line in f:
+                line = line.strip()
+                if line:
+                    v = json.loads(line)
+                    yield json.loads(v) if isinstance(v, str) else v
+
+
+KIND_RE = re.compile(r'\\?"k\\?":\\?"(\w+)\\?"')
+
+
+def fast_scan(path):
+    """Line count, kinds and number of windows of an export without decoding every line (the harness
+    decodes each line and exits 2 on a torn one); every 499th line is decoded here."""
+    n, kinds, nwin, longest = 0, {}, 0, 0
     with open(path) as f:
         for line in f:
-            line = line.strip()
-            if line:
-                v = json.loads(line)
-                yield json.loads(v) if isinstance(v, str) else v
+            if len(line) < 3:
+                continue
+            if not (line.startswith('"{') and line.rstrip().endswith('}"')):
+                raise ValueError("torn line %d in %s" % (n + 1, path))
+            n += 1
+            m = KIND_RE.search(line[:40])
+            if m:
+                kinds[m.group(1)] = kinds.get(m.group(1), 0) + 1
+                if m.group(1) == "subs":
+                    nwin += line.count('\\"from\\"')
+            if n % 499 == 1:
+                c = json.loads(json.loads(line))
+                if "h" in c:
+                    longest = max(longest, len(c["h"]))
+                if c.get("k") == "subs" and len(c["ws"]) != line.count('\\"from\\"'):
+                    raise ValueError("window count mismatch at line %d of %s" % (n, path))
+    return n, kinds, nwin, longest
 
 
 def trace_violations(ctx, events, rejects):
@@ -43,7 +72,7 @@ def trace_violations(ctx, events, rejects):
 
 def trace_phase(ctx, thorough):
     trace = ctx.path("trace.ndjson")
-    ctx.harness(["record", "C07", "--out", trace, "--n", 4000 if thorough else 600], timeout=900)
+    ctx.harness(["record", "C07", "--out", trace, "--n", 6000 if thorough else 600], timeout=900)
     events, rejects = ctx.trace_validate("SeqHeapTrace", "SeqHeapTrace.cfg", trace, timeout=1500)
     trace_violations(ctx, events, rejects)
     steps = sum(len(e["steps"]) for e in events)
@@ -51,6 +80,19 @@ def trace_phase(ctx, thorough):
     ctx.extra["trace_steps"] = steps
     ctx.extra["trace_longest_sequence"] = max((len(s["v"]["seq"]) for e in events for s in e["steps"]), default=0)
     ctx.expect_vacuity("recorded steps", steps)
+    ops = {}
+    for e in events:
+        for s in e["steps"]:
+            key = s["op"]
+            if s["op"] in ("rc", "join") and s["inplace"] == 1:
+                key += "/inplace"
+            if s["op"] == "sub" and s["circ"] == 1:
+                key += "/circular-wrap" if s["to"] <= s["from"] else "/circular"
+            ops[key] = ops.get(key, 0) + 1
+    ctx.extra["trace_steps_by_operation"] = ops
+    for need in ("new", "copy", "sub", "sub/circular", "sub/circular-wrap", "rc", "rc/inplace", "setseq", "setqual",
+                 "mutate", "recycle", "join", "join/inplace"):
+        ctx.expect_vacuity("recorded operation " + need, ops.get(need, 0))
     e0 = events[1] if len(events) > 1 else events[0]
     ctx.samples.append({"trace_history_ops": [s["op"] for s in e0["steps"]][:12], "objects": e0["n"]})
 
@@ -115,18 +157,13 @@ def main(ctx):
     # second population of histories: fewer kinds of operations, deeper (pool reuse needs depth)
     hist2 = ctx.path("hist2.ndjson")
     r3 = ctx.tlc_model("SeqHeap", "SeqHeap_deep%s.cfg" % ("_thorough" if thorough else ""), env={"VERIF_CASES": hist2}, timeout=1500)
-    kinds, nwin, nhist, longest = {}, 0, [0, 0], 0
     try:
-        for c in scan(laws):
-            kinds[c["k"]] = kinds.get(c["k"], 0) + 1
-            if c["k"] == "subs":
-                nwin += len(c["ws"])
-        for j, p in enumerate((hist, hist2)):
-            for c in scan(p):
-                nhist[j] += 1
-                longest = max(longest, len(c["h"]))
+        _, kinds, nwin, _ = fast_scan(laws)
+        h1 = fast_scan(hist)
+        h2 = fast_scan(hist2)
     except ValueError as ex:
-        raise vlib.Inconclusive("torn line in exported cases: %s" % ex)
+        raise vlib.Inconclusive("exported cases: %s" % ex)
+    nhist, longest = [h1[0], h2[0]], max(h1[3], h2[3])
     if nhist[0] != r2.distinct or nhist[1] != r3.distinct:
         raise vlib.Inconclusive("SeqHeap exported %s histories for %d+%d states" % (nhist, r2.distinct, r3.distinct))
     kinds["windows"] = nwin
@@ -138,12 +175,7 @@ def main(ctx):
     ctx.extra["exported_histories"] = sum(nhist)
     ctx.extra["longest_history"] = longest
     # R ---------------------------------------------------------------------------------------
-    allc = ctx.path("cases.ndjson")
-    with open(allc, "wb") as f:
-        for p in (laws, hist, hist2):
-            with open(p, "rb") as g:
-                shutil.copyfileobj(g, f, 1 << 22)
-            os.remove(p)
+    allc = ",".join((laws, hist, hist2))
     checked, crashes = replay_all(ctx, allc)
     want = sum(v for k, v in kinds.items() if k not in ("subs", "windows")) + nwin + sum(nhist) + ctx.classes.get("table/obikmer", 0)
     if crashes == 0 and checked != want:
